@@ -12,6 +12,16 @@ reported as {"error": "..."}.
 import json
 import os
 import subprocess
+
+
+def _lift_memory_limit():
+    """preexec hook of sanitizer children: undo the shard's soft address-space limit (ASan reserves terabytes)."""
+    try:
+        import resource
+        soft, hard = resource.getrlimit(resource.RLIMIT_AS)
+        resource.setrlimit(resource.RLIMIT_AS, (hard, hard))
+    except Exception:
+        pass
 import sys
 
 VERIF = os.path.dirname(os.path.dirname(os.path.abspath(__file__)))
@@ -46,7 +56,7 @@ def run_batch(module, func, items, asan=False, timeout=600, threads=None):
         env["UBSAN_OPTIONS"] = "print_stacktrace=1:halt_on_error=1:exitcode=98"
         cmd.append("--asan")
     p = subprocess.run(cmd, input=json.dumps(items), capture_output=True, text=True,
-                       cwd=VERIF, env=env, timeout=timeout)
+                       cwd=VERIF, env=env, timeout=timeout, preexec_fn=_lift_memory_limit)
     results = []
     for line in p.stdout.splitlines():
         if line.startswith("@@R "):
